@@ -1,10 +1,11 @@
 \* emission (quick): one printed run (configuration + full call log) per terminal state; the log is part of the state, so every
 \* combination of environment choices (halt answers, convergence reports) is a distinct printed run
-CONSTANTS MaxCyc = 2  MaxBurn = 1  MaxCap = 2  MaxStack = 2  MaxLevel = 400  Families = {"L", "D"}
+CONSTANTS MaxCyc = 2  MaxBurn = 2  MaxCap = 2  MaxStack = 2  MaxLevel = 400  Families = {"L", "D"}  EnvD = FALSE
 CONSTANT Configs <- McConfigs
 INIT Init
 NEXT Next
 CONSTRAINT Bound
+ACTION_CONSTRAINT EmitEnv
 INVARIANT EmitRun
 INVARIANT TypeOK
 INVARIANT BOLOnceFirst
